@@ -2,6 +2,7 @@ package sim
 
 import (
 	"fmt"
+	"runtime/debug"
 	"strings"
 
 	"github.com/pip-services3-gox/pip-services3-expressions-gox/calculator"
@@ -99,8 +100,25 @@ type stepStats struct {
 	varCalls     int
 	fired        string // fault kind that fired ("" if none)
 	libPanic     bool
+	panicFn      string // innermost library function of a library panic
+	panicMsg     string
 	tokens       int
+	contentLen   int
 	progressBad  string
+}
+
+// innermostLibFrame extracts the innermost library function from a stack
+// trace taken while panicking.
+func innermostLibFrame(stack string) string {
+	for _, l := range strings.Split(stack, "\n") {
+		if strings.HasPrefix(l, modPrefix) && !strings.Contains(l, "/verifsimrt.") {
+			if i := strings.LastIndex(l, "("); i > 0 {
+				l = l[:i]
+			}
+			return shortFn(l)
+		}
+	}
+	return "?"
 }
 
 func describeExprTokens(toks []*cparsers.ExpressionToken) string {
@@ -136,6 +154,8 @@ func (in *instance) step(o Op, sets []VarSet, dry *stepStats) (res string, st st
 				res = "step-budget:" + v.Error()
 			default:
 				st.libPanic = true
+				st.panicFn = innermostLibFrame(string(debug.Stack()))
+				st.panicMsg = fmt.Sprint(p)
 				res = fmt.Sprintf("panic:%v", p)
 			}
 		}
@@ -224,6 +244,7 @@ func (in *instance) step(o Op, sets []VarSet, dry *stepStats) (res string, st st
 			st.fired = "fail_at"
 		}
 		st.tokens = len(toks)
+		st.contentLen = len(sc.Content)
 		return describeTokens(toks), st
 	case in.ep != nil:
 		err := in.ep.ParseString(o.S)
